@@ -111,7 +111,8 @@ class Run(object):
     # -- model -----------------------------------------------------------
     def _rebase(self, stored):
         p = self.p
-        self.M = int(p.NFFT)
+        # real data: NFFT is not touched by a psd assignment; complex data: documented to become len(psd)
+        self.M = len(stored) if self.cplx else int(p.NFFT)
         self.store_sides = default_sides(self.cplx)
         self.stored = np.array(stored, dtype=float).copy() if not np.iscomplexobj(stored) else np.array(stored).copy()
         self.model_ok = True
@@ -198,6 +199,9 @@ class Run(object):
         if not self.model_ok:
             return None
         self.checked_reads += 1
+        if self.cplx and p.NFFT != self.M:
+            return Violation("len", idx, "a PSD of %d values was stored for complex data but NFFT reports %r"
+                             % (self.M, p.NFFT))
         return self._check_vector(idx, "psd (sides=%s)" % self.sides, p.psd, self.sides, p.frequencies(), p.df)
 
     # -- operations ---------------------------------------------------------
@@ -279,11 +283,27 @@ class Run(object):
                                                                 "complex" if self.cplx else "real")), "raised"
             after = self._snapshot()
             if not self._same(before, after):
-                return Violation("reject_clean", idx, "rejected sides=%r (%s) changed sides/psd: %s -> %s"
-                                 % (val, type(exc).__name__, before[0], after[0])), "raised"
+                # The statement does not say that a rejected assignment is a no-op, only that whatever
+                # the object then reports is a faithful conversion: accept a consistent move to another
+                # valid representation, flag anything else.
+                self.bump("rejected_op_changed_object")
+                if after[0] not in SIDES or (self.cplx and after[0] == "onesided"):
+                    return Violation("reject_clean", idx, "rejected sides=%r (%s) left sides=%r"
+                                     % (val, type(exc).__name__, after[0])), "raised"
+                self.sides = after[0]
+                v = self._check_object(idx)
+                if v is not None:
+                    v.clause = "reject_clean"
+                    v.detail = "after the rejected sides=%r (%s): %s" % (val, type(exc).__name__, v.detail)
+                return v, "raised"
             return self._check_object(idx), "raised:" + type(exc).__name__
         if not valid:
-            return Violation("accepted_invalid", idx, "sides=%r was accepted" % (val,)), "ok"
+            # a more lenient implementation may accept further spellings; what they mean is not defined
+            # by the statement, so stop examining this object
+            self.model_ok = False
+            self.sides = p.sides
+            self.bump("invalid_sides_name_accepted")
+            return None, "ok"
         if undefined:
             # a one-sided representation of a complex-data PSD is not defined by the statement: stop checking
             self.model_ok = False
@@ -366,6 +386,10 @@ class Run(object):
                 elif name == "onesided_2_twosided":
                     out = tools.onesided_2_twosided(cur) if M % 2 == 0 else tools.onesided_2_twosided(cur, even=False)
                     exp = T.copy(); nrep = "twosided"
+                elif name == "cshift_half":
+                    # the idiom the package documents for centring a two-sided PSD (correlog.py, modcovar.py)
+                    out = tools.cshift(cur, len(cur) / 2)
+                    exp = refmodel.render(T, "centerdc"); nrep = "centerdc"
                 elif name.startswith("cshift:"):
                     kk = int(name.split(":")[1])
                     out = tools.cshift(cur, kk)
@@ -382,17 +406,17 @@ class Run(object):
             if len(out) != len(exp):
                 return Violation("helper_len", idx, "tools.%s returned %d values for a %s vector of two-sided "
                                  "length %d, expected %d" % (name, len(out), rep, M, len(exp)))
-            exact = name in ("twosided_2_centerdc", "centerdc_2_twosided") or name.startswith("cshift")
+            exact = name in ("twosided_2_centerdc", "centerdc_2_twosided", "cshift_half") or name.startswith("cshift")
             if not (exact_equal(out, exp) if exact else close(out, exp)):
                 bad = [i for i in range(len(out)) if not close(out[i:i + 1], exp[i:i + 1])][:4]
                 return Violation("helper_fold_asym" if asym else "helper", idx,
                                  "tools.%s on %s length-%d vector: entries %s are %s, expected %s"
                                  % (name, rep, M, bad, [float(out[i]) for i in bad], [float(exp[i]) for i in bad]))
-            if not name.startswith("cshift") and abs(float(np.sum(out)) - float(np.sum(v))) > 1e-12 * float(np.sum(np.abs(v))) * M:
+            if not name.startswith("cshift:") and abs(float(np.sum(out)) - float(np.sum(v))) > 1e-12 * float(np.sum(np.abs(v))) * M:
                 return Violation("helper", idx, "tools.%s does not preserve the total power" % name)
             if name == "twosided_2_onesided":
                 T = refmodel.canonical_from(exp, "onesided", M)
-            if name.startswith("cshift"):
+            if name.startswith("cshift:"):
                 # a plain rotation: re-base the model on the rotated vector
                 if rep == "twosided":
                     T = out.astype(float).copy()
@@ -511,7 +535,7 @@ def run_systematic(seed, stratum, index):
 
 
 HELPERS_FROM = {
-    "twosided": ["twosided_2_centerdc", "twosided_2_onesided", "cshift"],
+    "twosided": ["twosided_2_centerdc", "twosided_2_onesided", "cshift", "cshift_half"],
     "centerdc": ["centerdc_2_twosided", "cshift"],
     "onesided": ["onesided_2_twosided"],
 }
@@ -525,7 +549,7 @@ def gen_helper_chain(rng, M):
         if name == "cshift":
             name = "cshift:%d" % rng.choice([0, 1, -1, 2, M // 2, M, M + 1, -M // 2 if M > 1 else 0, rng.randrange(-M, M + 1)])
         else:
-            rep = {"twosided_2_centerdc": "centerdc", "centerdc_2_twosided": "twosided",
+            rep = {"twosided_2_centerdc": "centerdc", "centerdc_2_twosided": "twosided", "cshift_half": "centerdc",
                    "twosided_2_onesided": "onesided", "onesided_2_twosided": "twosided"}[name]
         chain.append(name)
     return chain
@@ -548,6 +572,8 @@ def gen_op(rng, run):
         return {"op": "read"}
     if r < 0.86:
         n = run.M if cplx else refmodel.n_onesided(run.M)
+        if cplx and rng.random() < 0.4:
+            n = rng.choice([1, 2, 3, 4, 5, 7, 8, 9, 16, 17, rng.randrange(1, 65)])
         kind = rng.choice(["basis", "distinct", "random", "ramp", "ints"])
         d = enc_array(gen_vector(rng, n, kind, rng.randrange(0, n)))
         if rng.random() < 0.3:
